@@ -166,9 +166,22 @@ func VMicro() {
 	bb.Write(src[:int(b16%9)])
 	bb.WriteByte(b8)
 	out := bb.Bytes()
+	ps := []vMicroPair{{a8, b8}, {b8, a8}, {n, a8}, {a8 + 1, n}, {7, 9}}
+	copy(ps[1:], ps[:3]) // overlapping copy of struct elements
+	vObserve("copy.struct", uint64(ps[3].a)<<8|uint64(ps[2].b))
+	qs := ps[:0]
+	for _, p := range ps {
+		if p.a&1 == 0 {
+			qs = append(qs, p) // in-place filter: append into the same backing array
+		}
+	}
+	vObserve("filter.len", uint64(len(qs)))
+	vObserve("filter.first", uint64(ps[0].a)<<8|uint64(ps[0].b))
 	vObserve("buffer.len", uint64(len(out)))
 	vObserve("buffer.at", uint64(out[int(a16)%len(out)]))
 }
+
+type vMicroPair struct{ a, b uint8 }
 
 var vMicroTable = func() (t [256]uint8) {
 	for i := range t {
